@@ -103,6 +103,31 @@ def _run(ctx):
     inloop = okc and any(sets[0][2].bb in bl for bl in dp.loops().values())
     ctx.ob("R-ORDER", "count-decremented-up-the-chain|delete_pages", okc and inloop and len(par) >= 2, "Count = count - 1 inside the loop that follows Parent", dp.where(),
            what="delete_pages no longer decrements /Count on every ancestor of the deleted page")
+    # 4b. every deleted page gets its whole Parent chain: a counter that cuts the walk short (a guard against cyclic chains) is
+    # renewed for each page — one initialised before the loop over the pages is a budget shared by all of them, and the
+    # Counts of the pages deleted after it ran out are left too high
+    shared = []
+    if sets:
+        cset = sets[0][2]
+        loops_dp = dp.loops()
+        outer = None
+        for h, bl in sorted(loops_dp.items(), key=lambda kv: -len(kv[1])):
+            if cset.bb in bl:
+                outer = bl
+                break
+        for gd, tr in inv.rendered_guards(dp, cset.bb):
+            m = re.match(r"^(Eq|Ne|Lt|Le|Gt|Ge)\((\w+),\d+\)$", gd)
+            if not m or outer is None:
+                continue
+            for l, nme in dp.names.items():
+                if nme != m.group(2):
+                    continue
+                inits = [d for d in dp.defs.get(l, []) if not (d[2] == "rv" and d[3]["k"] == "bin" and d[3]["op"].startswith(("Sub", "Add")))
+                         and not (d[2] == "rv" and d[3]["k"] == "use" and isinstance(op_place_(d[3]["o"]), dict) and op_place_(d[3]["o"])["p"])]
+                if inits and all(d[0] not in outer for d in inits):
+                    shared.append(nme)
+    ctx.ob("R-ORDER", "count-walk-budget-per-page|delete_pages", not shared, "no counter initialised before the loop over the pages limits the walk up the Parent chain", dp.where(),
+           what="delete_pages limits the walk up the Parent chain by %s, which is initialised once for all pages: when it runs out the pages deleted afterwards are removed from /Kids but the /Count of their ancestors is no longer decremented" % shared)
     # 5. creating a Resources entry must consult the ancestors
     for fn in ("Document::get_or_create_resources", "IncrementalDocument::get_or_create_resources"):
         b = F.fn(fn)
@@ -206,6 +231,11 @@ def outline_ids(ctx, F):
                         ups.append(oc.rvname(st["rv"], 3).replace("*", "").replace("&", ""))
     ctx.ob("R-ORDER", "outline_child-fresh-ids", bool(ups) and all(t == "Add(arg%d,1)" % cpar[0] for t in ups), "outline_child only increments the shared counter (%d sites)" % len(ups), oc.where(),
            what="outline_child changes the shared id counter other than by += 1 (%s)" % ups)
+
+
+def op_place_(o):
+    from mir import op_place
+    return op_place(o)
 
 
 def run(ctx):
